@@ -396,19 +396,48 @@ class _merge_atomic:
 
 # ---------------------------------------------------------------------------------------------- adaptive fill_n (C04, C03)
 
-@contract(H1K + ".fill_n", props=["C04", "C03"], name=H1K + ".fill_n[adaptive]")
+def _contents_stay_on_their_intervals(a, old):
+    """a refused call may already have extended the adaptive bins (empty bins are added), but every recorded content stays on its
+    interval, the added bins are empty, missed counts are untouched and the histogram is well formed"""
+    ob, nb = attr(old.self, "_binnings")[0], attr(a.self, "_binnings")[0]
+    f0, f1, e0, e1 = F(old.self), F(a.self), E(old.self), E(a.self)
+    n = len(f1)
+    cs = [well_formed(a.self), attr(nb, "_bin_count") == n, attr(nb, "_bin_width") == attr(ob, "_bin_width"), attr(nb, "_shift") == attr(ob, "_shift"),
+          same(M(a.self), M(old.self))]
+    if not f0:
+        return And(*cs, *[And(x == 0, y == 0) for x, y in zip(f1, e1)])
+    for j in range(n):
+        wf, we = 0, 0
+        for i in range(len(f0)):
+            wf = wf + If(attr(ob, "_times_min") + i == attr(nb, "_times_min") + j, f0[i], 0)
+            we = we + If(attr(ob, "_times_min") + i == attr(nb, "_times_min") + j, e0[i], 0)
+        cs += [f1[j] == wf, e1[j] == we]
+    cs.append(attr(nb, "_times_min") <= attr(ob, "_times_min"))
+    cs.append(attr(nb, "_times_min") + n >= attr(ob, "_times_min") + len(f0))
+    return And(*cs)
+
+
+@contract(H1K + ".fill_n", props=["C04", "C03", "C18"], name=H1K + ".fill_n[adaptive]")
 class _filln_adaptive:
     bounded = True
     bound_note = "adaptive fill_n: <= 2 values, initial count <= 1, growth <= 5 bins"
     extent_cap = 6
 
     def configs():
-        return [{"c": c, "n": n} for c in (0, 1) for n in (0, 1, 2)]
+        return [{"c": c, "n": n} for c in (0, 1) for n in (0, 1, 2)] + [{"c": 1, "n": 2, "bad_weights": True}, {"c": 1, "n": 1, "bad_weights": True}]
 
     def inputs(b):
         c = b.cfg
         binning = fixed_width(b, "B", count=c.c, adaptive=True)
-        return dict(self=hist1d(b, "h", binning, c.c), values=b.array("d", (c.n,)))
+        kw = dict(self=hist1d(b, "h", binning, c.c), values=b.array("d", (c.n,)))
+        if getattr(c, "bad_weights", False):
+            kw["weights"] = b.array("w", (c.n + 1,))          # one weight too many: the call is refused
+        return kw
+
+    @raises(ValueError, "weights_of_another_length_are_refused_and_every_content_stays_on_its_interval",
+            state=lambda a, old: _contents_stay_on_their_intervals(a, old))
+    def _(o):
+        return hasattr(o, "weights")
 
     @ensures("every_value_inside_a_bin_total_grows_by_the_batch")
     def _(a, old, result):
@@ -441,7 +470,7 @@ class _h_dtype:
 
     def configs():
         return [{"dtype": "float64", "weights": None}, {"dtype": "int32", "weights": None}, {"dtype": "int64", "weights": "float64"},
-                {"dtype": "uint32", "weights": "float64"}]
+                {"dtype": "uint32", "weights": "float64"}, {"dtype": "int64", "weights": "float32"}, {"dtype": "int32", "weights": "float16"}]
 
     def inputs(b):
         c = b.cfg
